@@ -105,6 +105,20 @@ theorem ofSigned_toSigned32 (n : Nat) (h : n < 4294967296) : ofSigned 32 (toSign
   unfold toSigned ofSigned
   split <;> simp at * <;> omega
 
+theorem ofSigned16_lt (x : Int) : ofSigned 16 x < 65536 := by
+  unfold ofSigned
+  have : (0 : Int) ≤ x % ((2 ^ 16 : Nat) : Int) := Int.emod_nonneg _ (by simp)
+  have : x % ((2 ^ 16 : Nat) : Int) < ((2 ^ 16 : Nat) : Int) := Int.emod_lt_of_pos _ (by simp)
+  simp at *
+  omega
+
+theorem toSigned_ofSigned16 (x : Int) (h : -32768 ≤ x ∧ x ≤ 32767) :
+    toSigned 16 (ofSigned 16 x) = x := by
+  unfold toSigned ofSigned
+  have e : ((2 ^ 16 : Nat) : Int) = 65536 := by decide
+  rw [e]
+  split <;> simp at * <;> omega
+
 namespace Adc
 
 /-! ### Samples -/
